@@ -6,8 +6,11 @@ LIT = {'int': '1', 'Str': '"s"', 'bool': 'true'}
 LONG = 'aVeryLongIdentifierNameThatLivesInTheHeapTable'   # > 15 bytes: interned, subject to GC
 
 
+LONG_CLS = [False]
+
+
 def cls(m):
-    return 'C' + m[1:]
+    return ('CaVeryLongClassNameThatIsInterned' if LONG_CLS[0] else 'C') + m[1:]
 
 
 def module_text(rng, name, universe, long_ids=False):
@@ -48,7 +51,26 @@ def module_text(rng, name, universe, long_ids=False):
             body.append('  function %s(): int = %s.via().get()' % (fn, cm))
         else:
             body.append('  function %s(): %s = %s.make().get()' % (fn, rng.pick(TYPES), cm))
-    text = '\n'.join(lines) + '\n\n%sclass %s(val %s: %s) {\n%s\n}\n' % (priv, c, v, t, '\n'.join(body))
+    extra_decls = ''
+    if long_ids:
+        # strings that are reachable through exactly one kind of syntax node each, so that a marker that
+        # forgets one traversal is observable once the collector has run
+        u = '%s%d' % (name, rng.below(1000))
+        body.append('  /** a documentation comment with a unique word docword%s that is long enough */' % u)
+        body.append('  function localsOf%sWithAVeryLongFunctionName(parameterWithAVeryLongName%s: int): int = {' % (u, u))
+        body.append('    // a line comment with a unique word lineword%s that is long enough to be interned' % u)
+        body.append('    let localVariableWithAVeryLongName%s = parameterWithAVeryLongName%s + 1;' % (u, u))
+        body.append('    /* a block comment with a unique word blockword%s that is long enough */' % u)
+        body.append('    let lambdaHolder%s = (lambdaParameterWithAVeryLongName%s: int) -> lambdaParameterWithAVeryLongName%s * 2;' % (u, u, u))
+        body.append('    let _ = "a string literal that is unique %s and long enough to be interned";' % u)
+        body.append('    lambdaHolder%s(localVariableWithAVeryLongName%s)' % (u, u))
+        body.append('  }')
+        body.append('  function <TypeParameterWithAVeryLongName%s> identityOf%s(valueOf%s: TypeParameterWithAVeryLongName%s): TypeParameterWithAVeryLongName%s = valueOf%s' % (u, u, u, u, u, u))
+        extra_decls = ('\ninterface InterfaceWithAVeryLongName%s { method methodWithAVeryLongNameInInterface%s(): int }\n'
+                       'class EnumWithAVeryLongName%s(VariantWithAVeryLongNameOne%s(int), VariantWithAVeryLongNameTwo%s) {\n'
+                       '  method matchOn%s(): int = match this { VariantWithAVeryLongNameOne%s(patternBinderWithAVeryLongName%s) -> patternBinderWithAVeryLongName%s, VariantWithAVeryLongNameTwo%s -> 0 }\n}\n'
+                       % (u, u, u, u, u, u, u, u, u, u))
+    text = '\n'.join(lines) + '\n\n%sclass %s(val %s: %s) {\n%s\n}\n' % (priv, c, v, t, '\n'.join(body)) + extra_decls
     if rng.chance(1, 10):
         # a recoverable syntax error somewhere inside
         text = text.replace('): int =', ') int =', 1) if '): int =' in text else text + '\nclass'
@@ -56,6 +78,14 @@ def module_text(rng, name, universe, long_ids=False):
 
 
 def gen_history(rng, nmods=5, nsteps=10, long_ids=False):
+    LONG_CLS[0] = bool(long_ids)
+    try:
+        return _gen_history(rng, nmods, nsteps, long_ids)
+    finally:
+        LONG_CLS[0] = False
+
+
+def _gen_history(rng, nmods, nsteps, long_ids):
     universe = ['M%d' % i for i in range(nmods)]
     extra = ['M%d' % i for i in range(nmods, nmods + 3)]
     init = {}
